@@ -196,11 +196,14 @@ def memo_histories(ctx):
     for it in range(150 if ctx.quick else 1500):
         nd = rng.choice([2, 3])
         base = make_points(rng)[1]
+        DTYPE[0] = 'float64'          # (the nearly identical weights below are not representable in the narrow types)
         base = [(p[:nd] + [0] * (nd - len(p)), w) for p, w in base]
         # objects that share values / index prefixes, to tempt a value-keyed cache
         objs_pts = [base, [(p, w) for p, w in base], [(p[:nd - 1], w) for p, w in base] if nd >= 2 else base,
-                    [([x + 1 for x in p], w) for p, w in base]]
-        nds = [nd, nd, max(1, nd - 1), nd]
+                    [([x + 1 for x in p], w) for p, w in base],
+                    # the same footprint in a nearly identical map (weights that differ in the tenth digit)
+                    [(p, None if w is None else w * (1 + Fraction(k_ + 1, 2 ** 30))) for k_, (p, w) in enumerate(base)]]
+        nds = [nd, nd, max(1, nd - 1), nd, nd]
         live = [stat_of(pp, d) for pp, d in zip(objs_pts, nds)]
         calls = []
         fails = []
@@ -224,6 +227,21 @@ def memo_histories(ctx):
                 fails.append('%s raised %r' % (meth, e))
                 break
             calls.append((k, meth, args))
+        if not fails:
+            # two live objects on nearly identical maps: each answers for its own values (expected values computed here,
+            # outside the library, so that no cache can be shared with them)
+            order_ = [0, 4] if rng.random() < 0.5 else [4, 0]
+            for k in order_:
+                ex0 = float(sum(w for _, w in objs_pts[k] if w is not None))
+                g0 = float(live[k].mom0())
+                if abs(g0 - ex0) > 1e-13 * abs(ex0):
+                    fails.append('mom0 of object %d is %r, its values sum to %r (another live object holds nearly the same values)' % (k, g0, ex0))
+                    break
+                m0_, m1_, _ = exact_moments(objs_pts[k], nds[k])
+                g1 = [float(x) for x in live[k].mom1()]
+                if any(abs(a - float(b)) > 1e-12 * max(1.0, abs(float(b))) for a, b in zip(g1, m1_)):
+                    fails.append('mom1 of object %d is %r, the weighted mean of its own values is %r' % (k, g1, [float(b) for b in m1_]))
+                    break
         if not fails and rng.random() < 0.5:
             # array directions that print alike: a tiny tilt below the printed precision, and long stacks of rows of
             # which numpy prints the first and last three only
